@@ -158,6 +158,16 @@ def explore(ctx):
                     ctx.findings.append(dict(key=dict(aspect='isolation', dev=d1, other=d2),
                                              what='instances %s/%s influence each other: %s' % (d1, d2, f),
                                              replay=dict(d1=d1, d2=d2, seed=seed)))
+            # instances created WITHOUT a memory argument (each must get its own; seeded change C14-4)
+            n_eval += 1
+            try:
+                f = default_memory_case(classes, d1, d2, random.Random(rng.randrange(1 << 30)))
+            except Exception as ex:
+                f = 'raised %s: %s' % (type(ex).__name__, ex)
+            if f:
+                ctx.findings.append(dict(key=dict(aspect='isolation-default-memory', dev=d1, other=d2),
+                                         what='instances %s/%s created without a memory argument: %s' % (d1, d2, f),
+                                         replay=dict(d1=d1, d2=d2)))
     ctx.stats['evaluations'] = n_eval
     ctx.stats['distinct_nontrivial'] = len(distinct)
     ctx.stats['traces_validated_against_impl'] = n_eval
@@ -217,6 +227,35 @@ def isolation_case(classes, d1, d2, r):
         return 'interleaved trace differs from solo trace'
     if t1 != [list(classes[d1].instruct), list(classes[d1].cycletime), list(classes[d1].disassemble)]:
         return 'class tables changed while running'
+    return None
+
+
+def default_memory_case(classes, d1, d2, r):
+    a, b = classes[d1](), classes[d2]()
+    if a.memory is b.memory:
+        return 'they share one memory object'
+    addr = r.randrange(0x0200, 0xff00)
+    val = r.randrange(1, 256)
+    prog = [0xa9, val, 0x8d, addr & 0xff, addr >> 8] if d1 != '65Org16' else [0xa9, val, 0x8d, addr, 0]
+    base = 0x0300 if not (0x0300 <= addr < 0x0310) else 0x0400
+    for i, v in enumerate(prog):
+        a.memory[base + i] = v
+    a.pc = base
+    before_b = (snapshot(b), [b.memory[base + i] for i in range(5)], b.memory[addr])
+    a.step()
+    a.step()
+    if a.memory[addr] != val:
+        return 'LDA #/STA did not store (harness)'
+    if (snapshot(b), [b.memory[base + i] for i in range(5)], b.memory[addr]) != before_b:
+        return 'a program loaded into and run on the first changed the second (memory cell %d or registers)' % addr
+    c = classes[d1]()
+    if c.memory[addr] != 0 or any(c.memory[base + i] != 0 for i in range(5)) or c.memory is a.memory:
+        return 'an instance created later starts with the memory contents of an earlier instance'
+    shared = [0] * 0x10000
+    e, f = classes[d1](memory=shared), classes[d2](memory=shared)
+    e.memory[addr] = val
+    if f.memory[addr] != val:
+        return 'two instances given the SAME memory object do not share it'
     return None
 
 
